@@ -7,7 +7,7 @@ import ast
 from ..dataflow import origins
 from ..effects import effects_on_params
 from ..layout import reshape_sites
-from ..model import calls_in, unparse
+from ..model import calls_in, unparse, walk_no_nested
 from ..norm import Normalizer, mentions_name, show, subterms
 from ..rules import calls_from, r_bind_literal, r_effect_free, r_live, r_thread, value_at
 from ..symshape import same_monomial, strip_casts
@@ -209,6 +209,35 @@ def run(ctx):
                    "closing dims match the partially transposed operator" if ty == want_y else f"dims {show(ty)} do not describe the partially transposed operator", sw[1][0])
         else:
             ctx.ob("R-BIND", ra, "closing swap dims [[d10,d00],[d01,d11]]", None, "dims not an index table", required=False)
+    # default dims: row dimensions (first row) are both sqrt(#rows), column dimensions (second row) both sqrt(#cols)
+    Nn = Normalizer(m, ra, inline=False)
+    dflt = None
+    for nd_ in walk_no_nested(ra.node):
+        if isinstance(nd_, ast.If) and unparse(nd_.test).replace(" ", "") in ("dimisNone", "Noneisdim"):
+            for st in nd_.body:
+                if isinstance(st, ast.Assign) and isinstance(st.targets[0], ast.Name) and st.targets[0].id == "dim":
+                    dflt = st
+    if dflt is not None:
+        t = Nn(dflt.value)
+        rd = None
+        for nd_ in walk_no_nested(ra.node):
+            if isinstance(nd_, ast.Assign) and isinstance(nd_.targets[0], ast.Name) and nd_.lineno < dflt.lineno:
+                v = Nn(nd_.value)
+                if v[0] == "call" and v[1] in ("numpy.round", "numpy.around", "numpy.rint") and "numpy.sqrt" in repr(v):
+                    rd = nd_.targets[0].id
+        okd, whyd = None, "default dims not a literal 2 x 2 table over the rounded square roots"
+        if rd is not None and t[0] == "call" and t[1] == "numpy.array" and t[2] and t[2][0][0] == "list" and len(t[2][0]) == 3 and \
+                all(r[0] == "list" and len(r) == 3 for r in t[2][0][1:]):
+            R0, R1 = ("sub", ("n", rd), ("c", 0)), ("sub", ("n", rd), ("c", 1))
+            rows = [tuple(_strip_int(x) for x in r[1:]) for r in t[2][0][1:]]
+            okd = rows == [(R0, R0), (R1, R1)]
+            whyd = "[[sqrt(rows), sqrt(rows)], [sqrt(cols), sqrt(cols)]]" if okd else \
+                f"default table {show(t)[:80]}: the first row must hold the two row dimensions (both sqrt(#rows)) and the second the two column dimensions"
+        elif rd is not None and ("T" in repr(t) or "transpose" in repr(t)) and show(t).count(rd) == 1:
+            okd = False
+            whyd = (f"`{unparse(dflt)[:60]}` is the column [[sqrt(rows)], [sqrt(cols)]], which the vector branch reads as the local dimensions (r, c) of *both* rows and "
+                    "columns: a rectangular operator (4 x 9) gets dims [[2, 3], [2, 3]] instead of [[2, 2], [3, 3]] and is rejected")
+        ctx.ob("R-KIND", ra, "omitted dim: rows split as (sqrt r, sqrt r), columns as (sqrt c, sqrt c)", okd, whyd, dflt, required=okd is not None)
     r_live(ctx, ra, "dim")
     r_effect_free(ctx, ra, ["input_mat", "dim"])
 
